@@ -170,20 +170,27 @@ reply_values = st.one_of(wide_text, big_texts(), st.lists(wide_text, max_size=4)
 @st.composite
 def response_cases(draw):
     return {"result": draw(reply_values), "sizes": draw(st.lists(st.integers(1, 1500), max_size=40)),
-            "gzip": draw(st.sampled_from([False, False, True, 1, 2, 3, 5])), "ascii": draw(st.booleans()), "mode": draw(st.sampled_from(["http", "duck", "duck"]))}
+            "gzip": draw(st.sampled_from([False, False, True, 1, 2, 3, 5])), "ascii": draw(st.booleans()), "mode": draw(st.sampled_from(["http", "duck", "duck"])),
+            # what the same transport received before: nothing, a complete response, or a response whose
+            # reading broke off (connection reset) after some bytes
+            "prior": draw(st.one_of(st.none(), st.none(), st.just("complete"),
+                                    st.tuples(st.just("aborted"), st.integers(0, 2500), st.sampled_from(["é", "€", "😀", "a"]))))}
 
 
 class DuckResponse(object):
     """A response-like object whose read(amt) returns generated short reads"""
 
-    def __init__(self, body, sizes, headers):
+    def __init__(self, body, sizes, headers, fail_after=None):
         self.body, self.pos, self.sizes, self.headers = body, 0, list(sizes), headers
         self.reads = []
+        self.fail_after = fail_after
 
     def getheader(self, name, default=None):
         return self.headers.get(name.lower(), default)
 
     def read(self, amt=None):
+        if self.fail_after is not None and self.pos >= self.fail_after:
+            raise ConnectionResetError(104, "Connection reset by peer")
         n = len(self.body) - self.pos if amt is None else amt
         if amt is not None and self.sizes and self.pos < len(self.body):
             n = max(1, min(n, self.sizes.pop(0)))
@@ -197,7 +204,7 @@ class DuckResponse(object):
         pass
 
 
-def client_receive(result, sizes, use_gzip, ensure_ascii, mode="http"):
+def client_receive(result, sizes, use_gzip, ensure_ascii, mode="http", prior=None):
     """mode 'http': real HTTPResponse over a buffered reader whose raw reads are
     cut at the generated sizes (network segmentation); mode 'duck': the
     transport's parse_response over a response object with short reads."""
@@ -224,6 +231,14 @@ def client_receive(result, sizes, use_gzip, ensure_ascii, mode="http"):
     head = ("\r\n".join(headers) + "\r\n\r\n").encode("latin-1")
     if mode == "duck":
         tr = J.Transport(cfg)
+        if prior == "complete":
+            tr.parse_response(DuckResponse(b'{"jsonrpc": "2.0", "id": 0, "result": "earlier"}', [7, 9], {}))
+        elif prior:
+            earlier = json.dumps({"jsonrpc": "2.0", "id": 0, "result": "x" * 1020 + prior[2] * 700}, ensure_ascii=False).encode("utf-8")
+            try:
+                tr.parse_response(DuckResponse(earlier, [], {}, fail_after=prior[1]))
+            except OSError:
+                pass
         resp = DuckResponse(body, sizes, {"content-encoding": "gzip"} if use_gzip else {})
         try:
             got_text = tr.parse_response(resp)
@@ -268,13 +283,15 @@ def client_receive(result, sizes, use_gzip, ensure_ascii, mode="http"):
 
 
 def oracle_response(case):
-    text, reads = client_receive(case["result"], case["sizes"], case["gzip"], case["ascii"], case["mode"])
+    text, reads = client_receive(case["result"], case["sizes"], case["gzip"], case["ascii"], case["mode"], case.get("prior"))
     nbytes = len(text.encode("utf-8"))
     multibyte = nbytes != len(text)
     nt = multibyte and (len(reads) > 1 or nbytes > 1024)
     classes = ["client-response", "mode:" + case["mode"], ("gzip-members:%d" % (1 if case["gzip"] is True else case["gzip"])) if case["gzip"] else "identity", "size:%s" % ("<=1024" if nbytes <= 1024 else ">1024")]
     if multibyte:
         classes.append("multibyte-body")
+    if case.get("prior") and case["mode"] == "duck":
+        classes.append("after-%s-response" % (case["prior"] if case["prior"] == "complete" else "aborted"))
     return Info(nt=nt, classes=classes, sample={"bytes": nbytes, "reads": reads[:12], "gzip": case["gzip"], "text": text[:80]})
 
 
@@ -349,6 +366,80 @@ def oracle_server(case):
     multibyte = nbytes != len(text)
     return Info(nt=multibyte and len(reads) > 1, classes=["server", "reads:%s" % ("1" if len(reads) <= 1 else "2-5" if len(reads) <= 5 else "6+")] + (["multibyte-body"] if multibyte else []),
                 sample={"bytes": nbytes, "reads": reads[:12], "text": text[:80]})
+
+
+REPLY_KINDS = ["call", "unknown-method", "malformed-json", "invalid-request", "notification", "batch", "failing-method",
+               "not-utf8", "no-content-length", "bad-content-length", "dispatcher-raises", "short-body"]
+CONTENT_TYPES = ["application/json-rpc", "application/json", "application/jsonrequest", "text/x-json; charset=utf-8", "x/y"]
+
+
+@st.composite
+def server_reply_cases(draw):
+    return {"kind": draw(st.sampled_from(REPLY_KINDS)), "content_type": draw(st.sampled_from(CONTENT_TYPES)),
+            "text": draw(st.one_of(wide_text, st.text(max_size=30))), "sizes": draw(st.lists(st.integers(1, 200), max_size=6)),
+            "version": draw(st.sampled_from([1.0, 2.0]))}
+
+
+def oracle_server_reply(case):
+    """Whatever the handler answers - results, faults, the empty reply to a
+    notification, and the 500 reply when the request fails outside the
+    dispatcher - the message declares the exact length and the configured type"""
+    from jsonrpclib.SimpleJSONRPCServer import SimpleJSONRPCDispatcher
+    from jsonrpclib.config import Config
+    from vlib.loopback import post_to_handler
+
+    kind, ctype = case["kind"], case["content_type"]
+    cfg = Config(content_type=ctype, version=case["version"])
+    disp = SimpleJSONRPCDispatcher(config=cfg)
+    disp.register_function(lambda *a: list(a), "echo")
+
+    def boom(*a):
+        raise ValueError(case["text"])
+    disp.register_function(boom, "boom")
+    t = json.dumps(case["text"], ensure_ascii=False)
+    body = {
+        "call": '{"jsonrpc": "2.0", "id": 1, "method": "echo", "params": [%s]}' % t,
+        "unknown-method": '{"jsonrpc": "2.0", "id": 1, "method": "nope", "params": [%s]}' % t,
+        "malformed-json": '{"jsonrpc": "2.0", "id": 1, "method": "echo", "params": [%s' % t,
+        "invalid-request": '{"jsonrpc": "2.0", "id": %s, "method": 7}' % t,
+        "notification": '{"jsonrpc": "2.0", "method": "echo", "params": [%s]}' % t,
+        "batch": '[{"jsonrpc": "2.0", "id": 1, "method": "echo", "params": [%s]}, {"jsonrpc": "2.0", "method": "echo"}, 5]' % t,
+        "failing-method": '{"jsonrpc": "2.0", "id": 1, "method": "boom"}',
+    }.get(kind, '{"jsonrpc": "2.0", "id": 1, "method": "echo", "params": [%s]}' % t).encode("utf-8")
+    length = "auto"
+    if kind == "not-utf8":
+        body = body[:-2] + b"\xff\xfe" + body[-2:]
+    elif kind == "no-content-length":
+        length = None
+    elif kind == "bad-content-length":
+        length = "12abc"
+    elif kind == "short-body":
+        length = str(len(body) + 10)      # the peer announces more than it sends, then closes
+    elif kind == "dispatcher-raises":
+        def raising(data, dispatch_method=None, path=None):
+            raise RuntimeError("dispatcher failure " + case["text"])
+        disp._marshaled_dispatch = raising
+    try:
+        status, headers, reply, reads = post_to_handler(disp, body, case["sizes"], content_length=length)
+    except Exception as ex:
+        fail("C17/server-handler-raised:%s" % type(ex).__name__, "do_POST raised %s: %s" % (type(ex).__name__, str(ex)[:200]), case)
+    got = {}
+    for k, v in headers:
+        got.setdefault(k.lower(), []).append(v)
+    code = status.split(" ")[1] if " " in status else status
+    if got.get("content-length") != [str(len(reply))]:
+        fail("C17/server-content-length", "%s reply (%s): Content-length %r for a body of %d bytes" % (kind, code, got.get("content-length"), len(reply)), case)
+    is_message = False
+    try:
+        is_message = bool(reply) and isinstance(json.loads(reply.decode("utf-8")), (dict, list))
+    except ValueError:
+        pass
+    if (is_message or (code == "200")) and got.get("content-type") != [ctype]:
+        fail("C17/server-content-type", "%s reply (%s): Content-type %r, configured %r" % (kind, code, got.get("content-type"), ctype), case)
+    if kind in ("call", "unknown-method", "malformed-json", "invalid-request", "batch", "failing-method") and (code != "200" or not is_message):
+        fail("C17/server-reply-status", "%s request answered %s %r" % (kind, status, reply[:100]), case)
+    return Info(nt=code != "200" or ctype != "application/json-rpc", classes=["server-reply:" + kind, "status:" + code, "type:" + ("default" if ctype == "application/json-rpc" else "custom")],
+                sample={"kind": kind, "status": status, "content_type": ctype, "reply": repr(reply[:80])})
 
 
 def server_split_cases(tier):
@@ -635,6 +726,9 @@ SUBS = [
     Sub("server", oracle_server, strategy=lambda tier: server_cases(),
         budget={"quick": 3000, "thorough": 60000}, shards={"quick": 8, "thorough": 16},
         what="do_POST with bodies read in generated pieces"),
+    Sub("server-replies", oracle_server_reply, strategy=lambda tier: server_reply_cases(),
+        budget={"quick": 1500, "thorough": 30000}, shards={"quick": 2, "thorough": 8},
+        what="every kind of reply do_POST emits (results, faults, empty notification reply, batch, the 500 reply for bodies that are not UTF-8, missing/invalid/overstated Content-Length, a raising dispatcher) x configured content types: exact Content-Length, configured Content-Type"),
     Sub("server-splits", oracle_server_split, enumerate=server_split_cases, shards={"quick": 4, "thorough": 8},
         time_cap={"quick": 100, "thorough": 1500},
         what="every split of short multi-byte request bodies (+ bodies above 10 MiB in the thorough tier)"),
